@@ -200,6 +200,7 @@ func goList() []*listPkg {
 // ---------------------------------------------------------------------------------------------
 
 type pkgCtx struct {
+	sawHook bool
 	lp      *listPkg
 	info    *types.Info
 	tpkg    *types.Package
@@ -302,6 +303,7 @@ func (c *pkgCtx) fresh(prefix string) *ast.Ident {
 
 func (c *pkgCtx) rewriteFile(f *ast.File) bool {
 	before := len(sites)
+	c.sawHook = false
 	for _, d := range f.Decls {
 		switch d := d.(type) {
 		case *ast.FuncDecl:
@@ -325,7 +327,7 @@ func (c *pkgCtx) rewriteFile(f *ast.File) bool {
 			})
 		}
 	}
-	if len(sites) == before {
+	if len(sites) == before && !c.sawHook {
 		return false
 	}
 	addImport(f)
@@ -385,9 +387,73 @@ func (c *pkgCtx) rewriteExprs(body *ast.BlockStmt) {
 			c.wrapNodeLHS(&n.X)
 		case *ast.CallExpr:
 			c.wrapMutatorCall(n)
+			c.shimSyncCall(n)
+		case *ast.GoStmt:
+			notes = append(notes, fmt.Sprintf("%s: go statement inside the library is outside the cooperative scheduler's control", fset.Position(n.Pos())))
 		}
 		return true
 	})
+}
+
+var syncShims = map[string]string{
+	"Mutex.Lock": "Lock", "Mutex.Unlock": "Unlock",
+	"RWMutex.Lock": "RWLock", "RWMutex.Unlock": "RWUnlock", "RWMutex.RLock": "RLock", "RWMutex.RUnlock": "RUnlock",
+	"Once.Do": "OnceDo",
+}
+
+// shimSyncCall rewrites x.Lock() into verifrt.Lock(&x) (and friends), also through embedded
+// fields. Other uses of package sync are noted.
+func (c *pkgCtx) shimSyncCall(call *ast.CallExpr) {
+	se, ok := call.Fun.(*ast.SelectorExpr)
+	if !ok {
+		return
+	}
+	sel := c.info.Selections[se]
+	if sel == nil || sel.Kind() != types.MethodVal {
+		return
+	}
+	fn, ok := sel.Obj().(*types.Func)
+	if !ok || fn.Pkg() == nil || (fn.Pkg().Path() != "sync" && fn.Pkg().Path() != "sync/atomic") {
+		return
+	}
+	sig := fn.Type().(*types.Signature)
+	rt := sig.Recv().Type()
+	if p, ok := rt.(*types.Pointer); ok {
+		rt = p.Elem()
+	}
+	named, ok := rt.(*types.Named)
+	if !ok {
+		return
+	}
+	shim, ok := syncShims[named.Obj().Name()+"."+fn.Name()]
+	if !ok || fn.Pkg().Path() != "sync" {
+		notes = append(notes, fmt.Sprintf("%s: %s.%s.%s is not modelled by the scheduler", fset.Position(call.Pos()), fn.Pkg().Path(), named.Obj().Name(), fn.Name()))
+		return
+	}
+	// build the receiver expression, following embedded fields
+	recv := se.X
+	t := sel.Recv()
+	idx := sel.Index()
+	for _, fi := range idx[:len(idx)-1] {
+		if p, ok := t.Underlying().(*types.Pointer); ok {
+			t = p.Elem()
+		}
+		st, ok := t.Underlying().(*types.Struct)
+		if !ok {
+			notes = append(notes, fmt.Sprintf("%s: cannot resolve embedded sync receiver", fset.Position(call.Pos())))
+			return
+		}
+		f := st.Field(fi)
+		recv = &ast.SelectorExpr{X: recv, Sel: ast.NewIdent(f.Name())}
+		t = f.Type()
+	}
+	if _, isPtr := t.Underlying().(*types.Pointer); !isPtr {
+		recv = &ast.UnaryExpr{Op: token.AND, X: recv}
+	}
+	stats["syncshim"]++
+	call.Fun = &ast.SelectorExpr{X: ast.NewIdent("verifrt"), Sel: ast.NewIdent(shim)}
+	call.Args = append([]ast.Expr{recv}, call.Args...)
+	c.sawHook = true
 }
 
 func (c *pkgCtx) isNodePtr(e ast.Expr) bool {
